@@ -133,6 +133,51 @@ def select_programs(tier):
             yield {"calls": calls}
 
 
+def struct_programs(tier):
+    """hand-shaped structures the product menus do not reach: self-correlated subqueries over a renamed copy of the outer
+    table, several automatically named subqueries (plain and nested) in one statement, ELSE / THEN values that are falsy"""
+    oid = [["orderby", [f("t", "id")], "asc"]]
+    for crit in (["cmp", "=", f("t", "b"), f("x", "b")], ["cmp", "=", f("x", "b"), f("t", "b")],
+                 ["logic", "AND", ["cmp", "=", f("t", "b"), f("x", "b")], ["cmp", "<", f("t", "id"), f("x", "id")]],
+                 ["between", f("x", "b"), f("t", "a"), f("t", "b")], ["between", f("t", "b"), f("x", "a"), f("x", "b")]):
+        sub = {"calls": [["from", ["t", "t", "x"]], ["select", [["arith", "-", f("x", "a"), raw(1)]]], ["where", crit]]}
+        for neg in (False, True):
+            yield {"calls": [["from", ["t", "t"]], ["select", [f("t", "id"), f("t", "a")]],
+                             ["where", ["insub", f("t", "a"), sub] + (["notin"] if neg else [])]] + oid}
+            yield {"calls": [["from", ["t", "t"]], ["select", [f("t", "id"), f("t", "a")]], ["where", ["cmp", ">", f("t", "id"), raw(0)]],
+                             ["where", ["insub", f("t", "a"), sub] + (["notin"] if neg else [])]] + oid}
+    nest1 = {"calls": [["from", ["q", "in1", SUBQ_U]], ["select", [f("in1", "id"), f("in1", "a")]]]}
+    nest2 = {"calls": [["from", ["q", "in2", nest1]], ["select", [f("in2", "id"), f("in2", "a")]], ["where", ["notnull", f("in2", "a")]]]}
+    subs = {"u": SUBQ_U, "n1": nest1, "n2": nest2, "j": SUBQ_J}
+    col = {"u": ("id", "a"), "n1": ("id", "a"), "n2": ("id", "a"), "j": ("tid", "mx")}
+    for k1, k2 in itertools.product(subs, repeat=2):
+        for how in ("inner", "left"):
+            # plain FROM, two un-aliased joined subqueries
+            yield {"calls": [["from", ["t", "t"]],
+                             ["join", how, ["q", "j1", subs[k1]], ["on", ["cmp", "=", f("t", "id"), f("j1", col[k1][0])]]],
+                             ["join", how, ["q", "j2", subs[k2]], ["on", ["cmp", "=", f("t", "id"), f("j2", col[k2][0])]]],
+                             ["select", [f("t", "id"), f("j1", col[k1][1]), f("j2", col[k2][1])]]]
+                   + [["orderby", [f("t", "id")], "asc"], ["orderby", [f("j1", col[k1][1])], "asc"], ["orderby", [f("j2", col[k2][1])], "asc"]]}
+        # un-aliased subquery in FROM, two more joined
+        yield {"calls": [["from", ["q", "b0", SUBQ_U]],
+                         ["join", "left", ["q", "j1", subs[k1]], ["on", ["cmp", "=", f("b0", "id"), f("j1", col[k1][0])]]],
+                         ["join", "left", ["q", "j2", subs[k2]], ["on", ["cmp", "=", f("b0", "id"), f("j2", col[k2][0])]]],
+                         ["select", [f("b0", "id"), f("j1", col[k1][1]), f("j2", col[k2][1])]]]
+               + [["orderby", [f("b0", "id")], "asc"], ["orderby", [f("j1", col[k1][1])], "asc"], ["orderby", [f("j2", col[k2][1])], "asc"]]}
+        # FROM list of three
+        yield {"calls": [["from", ["q", "b0", SUBQ_U]], ["from", ["q", "j1", subs[k1]]], ["from", ["q", "j2", subs[k2]]],
+                         ["select", [f("b0", "id"), f("j1", col[k1][1]), f("j2", col[k2][1])]],
+                         ["where", ["logic", "AND", ["cmp", "=", f("b0", "id"), f("j1", col[k1][0])], ["cmp", "=", f("b0", "id"), f("j2", col[k2][0])]]]]
+               + [["orderby", [f("b0", "id")], "asc"], ["orderby", [f("j1", col[k1][1])], "asc"], ["orderby", [f("j2", col[k2][1])], "asc"]]}
+    # CASE with falsy THEN / ELSE values in projection, grouping and DML
+    for els in (raw(0), raw(""), raw(False), raw(0.0), ["null"], raw(1), None):
+        for then in (raw(0), raw("hi"), raw(False)):
+            case = ["case", [[["cmp", ">", f("t", "a"), raw(1)], then]], els]
+            yield {"calls": [["from", ["t", "t"]], ["select", [f("t", "id"), A(case, "c")]]] + oid}
+            yield {"calls": [["from", ["t", "t"]], ["select", [A(case, "k"), ["agg", "COUNT", "*"]]], ["groupby", [A(case, "k")]]]}
+            yield {"calls": [["update", ["t", "t"]], ["set", "b", case]]}
+
+
 def setop_programs(tier):
     a = {"calls": [["from", ["t", "t"]], ["select", [f("t", "a")]], ["where", ["cmp", ">", f("t", "a"), raw(0)]]]}
     b = {"calls": [["from", ["t", "u"]], ["select", [f("u", "x")]]]}
@@ -179,12 +224,13 @@ def dml_programs(tier):
             yield {"calls": [["from", T], ["delete"], ["where", w], ["where", ["cmp", ">", f("t", "id"), raw(1)]]]}
 
 
-GEN = {"select": select_programs, "setop": setop_programs, "dml": dml_programs}
+GEN = {"select": select_programs, "setop": setop_programs, "dml": dml_programs, "struct": struct_programs}
 
 
 def chunks(tier, seed):
     out = [{"gen": "select", "part": i, "of": 64, "tier": tier} for i in range(64)]
     out += [{"gen": "setop", "part": 0, "of": 1, "tier": tier}, {"gen": "dml", "part": 0, "of": 1, "tier": tier}]
+    out += [{"gen": "struct", "part": i, "of": 4, "tier": tier} for i in range(4)]
     out += [{"gen": "expr", "part": i, "of": 16, "tier": tier} for i in range(16)]
     return out
 
